@@ -65,6 +65,8 @@ fn main() {
                 "C15" => props::c15::run(tier, seed),
                 "C19" => props::c19::run(tier, seed),
                 "C20" => props::c20::run(tier, seed),
+                "C13" => props::c13::run(tier, seed),
+                "C14" => props::c14::run(tier, seed),
                 "C16" => props::c16::run(tier, seed),
                 "C17" => props::c17::run(tier, seed),
                 "C18" => props::c18::run(tier, seed),
@@ -116,6 +118,8 @@ fn replay(path: &str) -> i32 {
             "C15" => all.extend(props::c15::all_scenarios(tier)),
             "C19" => all.extend(props::c19::all_scenarios(tier)),
             "C20" => all.extend(props::c20::all_scenarios(tier)),
+            "C13" => all.extend(props::c13::all_scenarios(tier)),
+            "C14" => all.extend(props::c14::all_scenarios(tier)),
             "C16" => all.extend(props::c16::all_scenarios(tier)),
             "C17" => all.extend(props::c17::all_scenarios(tier)),
             "C18" => all.extend(props::c18::all_scenarios(tier)),
